@@ -535,3 +535,559 @@ example :
           [exScript, { exScript with dones := [1], c := 2 }] [[0, 1], [1, 0], [0, 0]]) := rfl
 
 end Brax.C15
+
+namespace Brax.C15
+variable {K P O X R A : Type}
+variable [CommRing R] [LinearOrder R] [IsStrictOrderedRing R]
+
+/-! # Deepening (round 2): `generate_unroll` as a whole, batched unroll / evaluator = map of the
+single-member ones, evaluation accumulators without the global 0/1 assumption, and the
+`Evaluator` horizon `⌊L/r⌋` against the time-limit cut at `⌈L/r⌉·r`.
+
+New vocabulary (defined in `Brax/Lemmas/C15.lean`): `unrollAt v step π split t s key` = the pair
+`(nstate, transition)` produced by the `t`-th (0-based) `actor_step` of `generate_unroll` started at
+`s` with `key`; `unrollActs … n s key` = the `n` actions the policy chose; `keyAt split t key` = the
+key carried after `t` iterations; `polZip πs` = a batched policy acting member-wise with member
+policy `πs[i]` on row `i` (one shared key — per-member noise is a per-member policy). -/
+
+section unrollWhole
+variable {Ky : Type}
+
+/-- **`generate_unroll` over `training.wrap(env, L, r)`, one batch member, whole unroll**, started
+after any history `as` (so also in the middle of an episode), for any policy, key splitting and any
+extra field `ex` read from `nstate.info` (`truncation`, `steps`, …: `ex` is an arbitrary function of
+the wrapped state).  The unroll returns `n` transitions and the state `run … (as ++ acts n)`;
+transition `t` is taken from the state after the first `t` chosen actions to the state after
+`t + 1` of them: `observation` is the observation before, `reward`, `discount = 1 − done`,
+`next_observation` and the extra are those of the state **after** the environment step.  When that
+step reported done (termination or time limit) `next_observation` is the **reset observation**
+(`AutoResetWrapper` already replaced it: the terminal observation is never recorded), otherwise
+the inner observation after `r` sub-steps; `discount = 0` exactly when `done = 1`.  Since the
+state after step `t` is the state before step `t + 1`, `observation` of transition `t + 1` is
+`next_observation` of transition `t` always, also across an auto-reset (`unroll_chains`). -/
+theorem generate_unroll_wrapped (env : Env K P O X R A) (L r : Nat) (k : K) (as : List A)
+    (π : O → Ky → A) (split : Ky → Ky × Ky) (ex : ArSt P O X R → R) (n : Nat) (key : Ky) :
+    let v : View (ArSt P O X R) O R := ⟨ArSt.obs, ArSt.reward, ArSt.done, ex⟩
+    let acts := fun t => unrollActs v (arStep env L r) π split t (run env L r k as) key
+    let u := unroll v (arStep env L r) π split n (run env L r k as) key
+    u.2.length = n ∧ u.1 = run env L r k (as ++ acts n) ∧
+    ∀ t, t < n → ∃ tr, u.2[t]? = some tr ∧
+      acts (t + 1) = acts t ++ [tr.action] ∧
+      tr.action = π (run env L r k (as ++ acts t)).obs (split (keyAt split t key)).1 ∧
+      tr.observation = (run env L r k (as ++ acts t)).obs ∧
+      tr.nextObservation = (run env L r k (as ++ acts (t + 1))).obs ∧
+      tr.reward = (run env L r k (as ++ acts (t + 1))).reward ∧
+      tr.discount = 1 - (run env L r k (as ++ acts (t + 1))).done ∧
+      tr.truncation = ex (run env L r k (as ++ acts (t + 1))) ∧
+      ((run env L r k (as ++ acts (t + 1))).done ≠ 0 → tr.nextObservation = (env.reset k).obs) ∧
+      ((run env L r k (as ++ acts (t + 1))).done = 0 →
+        tr.nextObservation = (iter env tr.action r (run env L r k (as ++ acts t)).inner).obs) ∧
+      (tr.discount = 0 ↔ (run env L r k (as ++ acts (t + 1))).done = 1) := by
+  intro v acts u
+  have hst : ∀ t, (unroll v (arStep env L r) π split t (run env L r k as) key).1
+      = run env L r k (as ++ acts t) := by
+    intro t; rw [unroll_fst_foldl, run_append]
+  refine ⟨unroll_length _ _ _ _ _ _ _, hst n, ?_⟩
+  intro t ht
+  refine ⟨(unrollAt v (arStep env L r) π split t (run env L r k as) key).2,
+    unroll_getElem? _ _ _ _ n t ht _ _, unrollActs_succ _ _ _ _ t _ _, ?_⟩
+  have hsucc : acts (t + 1)
+      = acts t ++ [(unrollAt v (arStep env L r) π split t (run env L r k as) key).2.action] :=
+    unrollActs_succ _ _ _ _ t _ _
+  have hafter : run env L r k (as ++ acts (t + 1))
+      = (unrollAt v (arStep env L r) π split t (run env L r k as) key).1 := by
+    rw [← hst (t + 1), unroll_fst_succ]
+  rw [hafter]
+  have hat := unrollAt_eq v (arStep env L r) π split t (run env L r k as) key
+  rw [hst t] at hat
+  rw [hat]
+  refine ⟨rfl, rfl, rfl, rfl, rfl, rfl, ?_, ?_, ?_⟩
+  · intro hd
+    simp only [actorStep] at hd ⊢
+    rw [← run_snoc] at hd ⊢
+    exact ((autoreset_restores env L r k (as ++ acts t) _).2.2.1 hd).2
+  · intro hd
+    simp only [actorStep] at hd ⊢
+    rw [← run_snoc] at hd ⊢
+    exact ((autoreset_restores env L r k (as ++ acts t) _).2.2.2 hd).2
+  · simp only [actorStep]
+    constructor
+    · intro h; exact (sub_eq_zero.mp h).symm
+    · intro h; exact sub_eq_zero.mpr h.symm
+
+/-- the transitions of a single-member unroll are the `unrollAt` ones, and the `t`-th `actor_step`
+acts on the state returned by the unroll of length `t` (prefix property), with the first half of
+the split of the carried key -/
+theorem generate_unroll_prefix {S : Type} (v : View S O R) (step : S → A → S) (π : O → Ky → A)
+    (split : Ky → Ky × Ky) (n : Nat) (s : S) (key : Ky) :
+    (unroll v step π split n s key).2
+      = (List.range n).map (fun t => (unrollAt v step π split t s key).2) ∧
+    (∀ t, unrollAt v step π split t s key
+      = actorStep v step π (unroll v step π split t s key).1 (split (keyAt split t key)).1) ∧
+    (∀ t, (unroll v step π split (t + 1) s key).1 = (unrollAt v step π split t s key).1) ∧
+    (unroll v step π split n s key).1 = (unrollActs v step π split n s key).foldl step s :=
+  ⟨unroll_snd_eq_range _ _ _ _ _ _ _, fun t => unrollAt_eq _ _ _ _ t _ _,
+   fun t => unroll_fst_succ _ _ _ _ t _ _, unroll_fst_foldl _ _ _ _ _ _ _⟩
+
+/-- **batched `generate_unroll` = map of the single-member unrolls** (training stack
+`VmapWrapper → EpisodeWrapper → AutoResetWrapper`), for every unroll length, key, key splitting and
+member states with observations of the environment's size: the final batched state is the stack
+of the members' final states and the `t`-th batched transition is the stack of the members'
+`t`-th transitions.  The batched policy acts member-wise: row `i` is handled by `πs[i]` (all rows
+get the same key, as in the code; different noise per row is a different `πs[i]`). -/
+theorem batched_generate_unroll_eq_map (env : BEnv K P X R A) (n : Nat)
+    (hstep : ∀ s a, (env.step s a).obs.length = n) (L r : Nat)
+    (πs : List (List R → Ky → A)) (split : Ky → Ky × Ky) (N : Nat)
+    (l : List (ArSt P (List R) X R)) (hl : ∀ s ∈ l, s.firstObs.length = n ∧ s.obs.length = n)
+    (hlen : πs.length = l.length) (key : Ky) :
+    bUnroll bArView (bArStep env L r) (polZip πs) split N (BArSt.stack l) key
+      = (BArSt.stack (List.zipWith
+            (fun π s => (unroll arView (arStep env L r) π split N s key).1) πs l),
+         (List.range N).map fun t => BTransition.stack (List.zipWith
+            (fun π s => (unrollAt arView (arStep env L r) π split t s key).2) πs l)) := by
+  have h1 : πs = (πs.zip l).map (·.1) := (List.map_fst_zip (by omega)).symm
+  have h2 : l = (πs.zip l).map (·.2) := (List.map_snd_zip (by omega)).symm
+  have key' := bUnroll_ar_map env n hstep L r (πs.zip l) (·.1) (polZip ((πs.zip l).map (·.1)))
+    (fun f key => polZip_map _ _ f key) split N (·.2)
+    (fun x hx => hl x.2 (List.of_mem_zip hx).2) key
+  rw [← h1, ← h2] at key'
+  rw [key']
+  simp only [zipWith_eq_map_zip']
+
+/-- the same with one policy `π` applied to every row -/
+theorem batched_generate_unroll_eq_map_uniform (env : BEnv K P X R A) (n : Nat)
+    (hstep : ∀ s a, (env.step s a).obs.length = n) (L r : Nat)
+    (π : List R → Ky → A) (split : Ky → Ky × Ky) (N : Nat)
+    (l : List (ArSt P (List R) X R)) (hl : ∀ s ∈ l, s.firstObs.length = n ∧ s.obs.length = n)
+    (key : Ky) :
+    bUnroll bArView (bArStep env L r) (fun obs k => obs.map (π · k)) split N (BArSt.stack l) key
+      = (BArSt.stack (l.map fun s => (unroll arView (arStep env L r) π split N s key).1),
+         (List.range N).map fun t => BTransition.stack
+           (l.map fun s => (unrollAt arView (arStep env L r) π split t s key).2)) := by
+  have := bUnroll_ar_map env n hstep L r l (fun _ => π) (fun obs k => obs.map (π · k))
+    (fun f key => by simp only [List.map_map, Function.comp_def]) split N (fun s => s) hl key
+  simpa only [List.map_id'] using this
+
+/-- from the batched reset: the whole batched rollout `reset(ks)`, then `generate_unroll`, is the
+stack of the members' rollouts (member `i` from `reset(ks[i])`) -/
+theorem batched_generate_unroll_from_reset (env : BEnv K P X R A) (n : Nat)
+    (hreset : ∀ k, (env.reset k).obs.length = n) (hstep : ∀ s a, (env.step s a).obs.length = n)
+    (L r : Nat) (π : List R → Ky → A) (split : Ky → Ky × Ky) (N : Nat) (ks : List K) (key : Ky) :
+    bUnroll bArView (bArStep env L r) (fun obs k => obs.map (π · k)) split N (bArReset env ks) key
+      = (BArSt.stack (ks.map fun k =>
+            (unroll arView (arStep env L r) π split N (arReset env k) key).1),
+         (List.range N).map fun t => BTransition.stack (ks.map fun k =>
+            (unrollAt arView (arStep env L r) π split t (arReset env k) key).2)) := by
+  rw [bArReset_eq]
+  have := bUnroll_ar_map env n hstep L r ks (fun _ => π) (fun obs k => obs.map (π · k))
+    (fun f key => by simp only [List.map_map, Function.comp_def]) split N (arReset env)
+    (fun k _ => ⟨hreset k, hreset k⟩) key
+  exact this
+
+/-- **`bEvalRun = map evalRun`**: `Evaluator._generate_eval_unroll` on a batch (batched
+`EvalWrapper` reset with the key array `ks`, then `L // r` batched policy steps) is the stack of the
+single-member evaluator runs, for every episode length, action repeat, key array, policy key and
+key splitting (hence every action history the policy produces). -/
+theorem batched_eval_run_eq_map (env : BEnv K P X R A) (n : Nat)
+    (hreset : ∀ k, (env.reset k).obs.length = n) (hstep : ∀ s a, (env.step s a).obs.length = n)
+    (L r : Nat) (π : List R → Ky → A) (split : Ky → Ky × Ky) (ks : List K) (key : Ky) :
+    bEvalRun env L r (fun obs k => obs.map (π · k)) split ks key
+      = BEvSt.stack (ks.map fun k => evalRun env L r π split k key) := by
+  have := bEvalRun_map_gen env n hreset hstep L r ks (fun _ => π) (fun obs k => obs.map (π · k))
+    (fun f key => by simp only [List.map_map, Function.comp_def]) split (fun k => k) key
+  simpa only [List.map_id'] using this
+
+/-- the same with one member policy per row -/
+theorem batched_eval_run_eq_map_policies (env : BEnv K P X R A) (n : Nat)
+    (hreset : ∀ k, (env.reset k).obs.length = n) (hstep : ∀ s a, (env.step s a).obs.length = n)
+    (L r : Nat) (πs : List (List R → Ky → A)) (split : Ky → Ky × Ky) (ks : List K)
+    (hlen : πs.length = ks.length) (key : Ky) :
+    bEvalRun env L r (polZip πs) split ks key
+      = BEvSt.stack (List.zipWith (fun π k => evalRun env L r π split k key) πs ks) := by
+  have h1 : πs = (πs.zip ks).map (·.1) := (List.map_fst_zip (by omega)).symm
+  have h2 : ks = (πs.zip ks).map (·.2) := (List.map_snd_zip (by omega)).symm
+  have key' := bEvalRun_map_gen env n hreset hstep L r (πs.zip ks) (·.1)
+    (polZip ((πs.zip ks).map (·.1))) (fun f key => polZip_map _ _ f key) split (·.2) key
+  rw [← h1, ← h2] at key'
+  rw [key']
+  simp only [zipWith_eq_map_zip']
+
+end unrollWhole
+
+/-! ## evaluation metrics without the global 0/1 assumption -/
+
+/-- `eval_first_episode_only` needs the 0/1 assumption only for the wrapped `done` flags of the
+**first episode of the history at hand** (so in fact only for the flag that closes it: flags in the
+middle of an action repeat, flags of later episodes and flags on states never visited are
+irrelevant).  `.ar = run` needs nothing. -/
+theorem eval_first_episode_only_local (env : Env K P O X R A) (L r : Nat) (k : K) (as : List A)
+    (hb : ∀ t ∈ firstEp (trace env L r k as), t.done = 0 ∨ t.done = 1) :
+    (evRun env L r k as).ar = run env L r k as ∧
+    (evRun env L r k as).emReward = ((firstEp (trace env L r k as)).map (·.reward)).sum ∧
+    (evRun env L r k as).active
+      = (if (trace env L r k as).any (fun t => decide (t.done ≠ 0)) then 0 else 1) ∧
+    (evRun env L r k as).episodeSteps
+      = (((firstEp (trace env L r k as)).getLast?).map (·.steps)).getD 0 := by
+  have h := evFold_active' env L r (evReset env k) rfl as hb
+  refine ⟨(evFold_ar env L r (evReset env k) as).1, ?_, h.2.1, h.2.2⟩
+  have := h.1
+  simp only [evReset, zero_add] at this
+  exact this
+
+theorem eval_metrics_first_episode_only_local (env : Env K P O X R A)
+    (hm : ∀ s a, (env.step s a).metrics.length = s.metrics.length) (L r : Nat) (k : K)
+    (as : List A) (hb : ∀ t ∈ firstEp (trace env L r k as), t.done = 0 ∨ t.done = 1) :
+    (evRun env L r k as).emMetrics
+      = (firstEp (trace env L r k as)).foldl (fun acc t => List.zipWith (· + ·) acc t.metrics)
+          (List.replicate (env.reset k).metrics.length 0) := by
+  have h := evFold_active_metrics' env hm L r (evReset env k) rfl
+    (by simp [evReset, arReset, epReset, ArSt.metrics]) as hb
+  have he : (evReset env k).emMetrics = List.replicate (env.reset k).metrics.length (0 : R) := by
+    simp only [evReset, arReset, epReset, ArSt.metrics, List.map_const']
+  rw [← he]
+  exact h
+
+/-- what holds with **no** assumption on the `done` flags at all:
+* `active_episodes` is the product of `1 − done` over the wrapped steps so far;
+* once it is 0 it stays 0 and `episode_metrics['reward']`, `episode_steps` are frozen;
+* up to and including the first wrapped step with a non-zero flag the accumulators are exact: if
+  no step of `as` reported done, then after `as ++ [a]` the accumulated reward is the sum of all
+  wrapped rewards, `episode_steps` is `info['steps']` of the last step and
+  `active_episodes = 1 − done` of the last step (which is 0 iff that flag is exactly 1). -/
+theorem eval_no_assumption (env : Env K P O X R A) (L r : Nat) (k : K) (as bs : List A) (a : A) :
+    (evRun env L r k as).active = ((trace env L r k as).map fun t => 1 - t.done).prod ∧
+    ((evRun env L r k as).active = 0 →
+      (evRun env L r k (as ++ bs)).active = 0 ∧
+      (evRun env L r k (as ++ bs)).emReward = (evRun env L r k as).emReward ∧
+      (evRun env L r k (as ++ bs)).episodeSteps = (evRun env L r k as).episodeSteps) ∧
+    ((∀ t ∈ trace env L r k as, t.done = 0) →
+      (evRun env L r k (as ++ [a])).emReward = ((trace env L r k (as ++ [a])).map (·.reward)).sum ∧
+      (evRun env L r k (as ++ [a])).episodeSteps = (run env L r k (as ++ [a])).steps ∧
+      (evRun env L r k (as ++ [a])).active = 1 - (run env L r k (as ++ [a])).done) := by
+  refine ⟨?_, ?_, ?_⟩
+  · have := evFold_active_prod env L r (evReset env k) as
+    rw [show (evReset env k).active = (1 : R) from rfl, one_mul] at this
+    exact this
+  · intro h0
+    have := evFold_frozen env L r (evRun env L r k as) h0 bs
+    simpa only [evRun, List.foldl_append] using this
+  · intro hz
+    have hpre := eval_first_episode_only_local env L r k as
+      (fun t ht => Or.inl (hz t (firstEp_subset _ t ht)))
+    have hact : (evRun env L r k as).active = 1 := by
+      rw [hpre.2.2.1, if_neg]
+      simp only [List.any_eq_true, decide_eq_true_eq, not_exists, not_and, not_not]
+      exact hz
+    have hone := evStep_active_one env L r (evRun env L r k as) hact a
+    have hsn : evRun env L r k (as ++ [a]) = evStep env L r (evRun env L r k as) a := by
+      simp only [evRun, List.foldl_append, List.foldl_cons, List.foldl_nil]
+    rw [hpre.1, ← run_snoc] at hone
+    rw [hsn]
+    refine ⟨?_, hone.2.1, hone.2.2⟩
+    rw [hone.1, hpre.2.1, firstEp_all_zero _ hz, trace_snoc, List.map_append, List.sum_append]
+    simp
+
+/-- an inner environment with a non-boolean flag: it reports `done = 2` on its second step -/
+def twoEnv : BEnv Unit Nat Unit Int Int :=
+  ⟨fun _ => ⟨0, [0], 0, 0, [0], ()⟩,
+   fun s a => ⟨s.ps + 1, [(s.ps : Int) + 1], a, if s.ps + 1 = 2 then 2 else 0, [a], ()⟩⟩
+
+/-- **witness that the 0/1 assumption cannot be dropped** (confirmed on the real `EvalWrapper`,
+see `notes/C15-deepen.md`): with a flag `done = 2` the other wrappers treat the step as an
+episode end (`jp.where(done, …)`: auto-reset, counter restart) but `active_episodes` becomes
+`1·(1 − 2) = −1`, the second episode is *subtracted* from `episode_metrics['reward']`, and after
+the second such flag the member is "active" again: after 4 steps the first episode's reward is 2
+but the accumulator shows 0, `active_episodes = 1`.  All three conclusions of
+`eval_first_episode_only` fail. -/
+theorem eval_nonboolean_done_counterexample :
+    let tr := trace (R := Int) twoEnv 10 1 () [1, 1, 1, 1]
+    let e := evRun (R := Int) twoEnv 10 1 () [1, 1, 1, 1]
+    tr.map (·.done) = [0, 2, 0, 2] ∧ tr.map (·.steps) = [1, 2, 1, 2] ∧
+    tr.map (·.obs) = [[1], [0], [1], [0]] ∧
+    ((firstEp tr).map (·.reward)).sum = 2 ∧ e.emReward = 0 ∧ e.emReward ≠ ((firstEp tr).map (·.reward)).sum ∧
+    e.active = 1 ∧ e.active ≠ (if tr.any (fun t => decide (t.done ≠ 0)) then 0 else 1) ∧
+    (evRun (R := Int) twoEnv 10 1 () [1, 1]).active = -1 ∧
+    (evRun (R := Int) twoEnv 10 1 () [1, 1, 1]).episodeSteps = 1 ∧
+    (((firstEp (trace (R := Int) twoEnv 10 1 () [1, 1, 1])).getLast?).map (·.steps)).getD 0 = 2 := by
+  decide
+
+/-! ## the `Evaluator` horizon: `⌊L/r⌋` wrapped steps against the time-limit cut at `⌈L/r⌉·r` -/
+section evaluator
+variable {Ky : Type}
+
+/-- an evaluator run is `EvalWrapper(wrap(env))` driven by the `L // r` actions the policy chose -/
+theorem evaluator_run_eq (env : Env K P O X R A) (L r : Nat) (π : O → Ky → A)
+    (split : Ky → Ky × Ky) (k : K) (key : Ky) :
+    evalRun env L r π split k key = evRun env L r k (evalActs env L r π split k key) ∧
+    (evalActs env L r π split k key).length = L / r :=
+  ⟨unroll_fst_foldl _ _ _ _ _ _ _, unrollActs_length _ _ _ _ _ _ _⟩
+
+/-- **what the evaluator can see.**  For any wrapped step within the first `⌊L/r⌋` steps after a
+reset (`c` its position in its episode): `c·r ≤ L`.  The time limit (`L ≤ c·r`) can fire only if
+`r ∣ L`, only on the **last** step of the unroll and only if no earlier step reported done.
+Whenever `c·r < L` — in particular on every step when `r ∤ L` — `done` is the inner flag of the
+last sub-step and `truncation = 0`: for `r ∤ L` the evaluator never sees a time-limit cut. -/
+theorem evaluator_horizon (env : Env K P O X R A) {L r : Nat} (hL : 1 ≤ L) (hr : 1 ≤ r) (k : K)
+    (as : List A) (a : A) (hlen : as.length + 1 ≤ L / r) :
+    let c := count env L r k (as ++ [a])
+    let s := run env L r k (as ++ [a])
+    c * r ≤ L ∧
+    (L ≤ c * r → r ∣ L ∧ as.length + 1 = L / r ∧ (∀ t ∈ trace env L r k as, t.done = 0) ∧
+      s.done = 1) ∧
+    (c * r < L → s.done = (iter env a r (run env L r k as).inner).done ∧ s.truncation = 0) ∧
+    (¬ r ∣ L → c * r < L) := by
+  intro c s
+  have hc : c ≤ as.length + 1 := by
+    have := count_le_length (R := R) env L r k (as ++ [a])
+    rwa [List.length_append, List.length_singleton] at this
+  have h1 : L / r * r ≤ L := Nat.div_mul_le_self L r
+  have h2 : c * r ≤ L / r * r := Nat.mul_le_mul_right r (by omega)
+  have htl := time_limit (R := R) env hL hr k as a
+  refine ⟨by omega, ?_, ?_, ?_⟩
+  · intro hle
+    have heq : c * r = L := by omega
+    have hcN : c = L / r := by rw [← heq, Nat.mul_div_cancel c (by omega)]
+    have hfull : c = as.length + 1 := by omega
+    exact ⟨⟨c, by rw [← heq, Nat.mul_comm]⟩, by omega,
+      count_full_imp env L r k as a hfull, htl.2.2.1 hle⟩
+  · intro hlt
+    refine ⟨htl.2.2.2.1 hlt, ?_⟩
+    have hs : s.steps = ((c * r : Nat) : R) := (steps_counter env r hL k (as ++ [a])).1
+    show (run env L r k (as ++ [a])).truncation = 0
+    have ht := truncation_eq env L r (run env L r k as) a
+    rw [← run_snoc] at ht
+    rw [ht, if_neg]
+    rw [hs]
+    exact not_le.mpr (by exact_mod_cast hlt)
+  · intro hnd
+    have : c * r ≠ L := fun heq => hnd ⟨c, by rw [← heq, Nat.mul_comm]⟩
+    omega
+
+/-- below the limit a never-terminating inner environment gives `done = 0`, `truncation = 0` -/
+theorem nonterminating_below_limit (env : Env K P O X R A) {L r : Nat} (hL : 1 ≤ L) (hr : 1 ≤ r)
+    (hnt : ∀ s a, (env.step s a).done = 0) (k : K) (as : List A) (hlen : as.length * r < L) :
+    ∀ t ∈ trace env L r k as, t.done = 0 ∧ t.truncation = 0 := by
+  induction as using list_snoc_induction with
+  | nil => intro t ht; simp [trace, traceFrom] at ht
+  | snoc as a ih =>
+    rw [List.length_append, List.length_singleton, Nat.succ_mul] at hlen
+    have hpre := ih (by omega)
+    intro t ht
+    rw [trace_snoc, List.mem_append, List.mem_singleton] at ht
+    rcases ht with ht | rfl
+    · exact hpre t ht
+    · have hc : count env L r k (as ++ [a]) ≤ as.length + 1 := by
+        have := count_le_length (R := R) env L r k (as ++ [a])
+        rwa [List.length_append, List.length_singleton] at this
+      have hcr : count env L r k (as ++ [a]) * r ≤ (as.length + 1) * r :=
+        Nat.mul_le_mul_right r hc
+      rw [Nat.succ_mul] at hcr
+      have hlt : count env L r k (as ++ [a]) * r < L := by omega
+      have htl := time_limit (R := R) env hL hr k as a
+      refine ⟨?_, ?_⟩
+      · rw [htl.2.2.2.1 hlt]; exact iter_done_zero env hnt a hr _
+      · have hs := (steps_counter (R := R) env r hL k (as ++ [a])).1
+        have ht := truncation_eq env L r (run env L r k as) a
+        rw [← run_snoc] at ht
+        rw [ht, if_neg]
+        rw [hs]
+        exact not_le.mpr (by exact_mod_cast hlt)
+
+/-- **the evaluator on an episode that never terminates** (`done = 0` from the inner environment
+always).  If `r ∤ L` the member is still active at the end of the evaluation, no step was flagged
+done or truncated, and the episode is scored on `⌊L/r⌋·r < L` simulated steps (0 steps when
+`r > L`).  If `r ∣ L` the time limit fires exactly on the last step of the unroll: the member is
+closed with `truncation = 1` and `episode_steps = L`.  In both cases the accumulated reward is the
+sum of all wrapped rewards of the unroll. -/
+theorem evaluator_nonterminating (env : Env K P O X R A) {L r : Nat} (hL : 1 ≤ L) (hr : 1 ≤ r)
+    (hnt : ∀ s a, (env.step s a).done = 0) (π : O → Ky → A) (split : Ky → Ky × Ky) (k : K)
+    (key : Ky) :
+    let acts := evalActs env L r π split k key
+    let e := evalRun env L r π split k key
+    e.emReward = ((trace env L r k acts).map (·.reward)).sum ∧
+    (¬ r ∣ L → e.active = 1 ∧ e.episodeSteps = ((L / r * r : Nat) : R) ∧ L / r * r < L ∧
+      ∀ t ∈ trace env L r k acts, t.done = 0 ∧ t.truncation = 0) ∧
+    (r ∣ L → e.active = 0 ∧ e.episodeSteps = (L : R) ∧ (run env L r k acts).done = 1 ∧
+      (run env L r k acts).truncation = 1) := by
+  intro acts e
+  obtain ⟨he, hlen⟩ := evaluator_run_eq (R := R) env L r π split k key
+  have hee : e = evRun env L r k acts := he
+  have hlen' : acts.length = L / r := hlen
+  have h1 : L / r * r ≤ L := Nat.div_mul_le_self L r
+  by_cases hdiv : r ∣ L
+  · -- the limit fires on the last step
+    have hN : L / r * r = L := Nat.div_mul_cancel hdiv
+    have hNpos : 1 ≤ L / r := by
+      rcases Nat.eq_zero_or_pos (L / r) with h0 | hp
+      · rw [h0] at hN; omega
+      · exact hp
+    rcases List.eq_nil_or_concat acts with hnil | ⟨as', a, hcat⟩
+    · rw [hnil] at hlen'; simp at hlen'; omega
+    rw [List.concat_eq_append] at hcat
+    have hl' : as'.length + 1 = L / r := by
+      rw [← hlen', hcat, List.length_append, List.length_singleton]
+    have hlt : as'.length * r < L := by
+      have : (as'.length + 1) * r = L := by rw [hl', hN]
+      rw [Nat.succ_mul] at this; omega
+    have hz := nonterminating_below_limit (R := R) env hL hr hnt k as' hlt
+    have hz0 : ∀ t ∈ trace env L r k as', t.done = 0 := fun t ht => (hz t ht).1
+    have hc : count env L r k (as' ++ [a]) = as'.length + 1 :=
+      count_snoc_of_zero env L r k as' a hz0
+    have hle : L ≤ count env L r k (as' ++ [a]) * r := by rw [hc, hl', hN]
+    have hd : (run env L r k (as' ++ [a])).done = 1 :=
+      (time_limit (R := R) env hL hr k as' a).2.2.1 hle
+    have htr : (run env L r k (as' ++ [a])).truncation = 1 :=
+      (truncation_iff_run env r hL k as' a).1.mpr ⟨hle, iter_done_zero env hnt a hr _⟩
+    have hfe : firstEp (trace env L r k (as' ++ [a])) = trace env L r k (as' ++ [a]) := by
+      rw [trace_snoc]; exact firstEp_snoc_all_zero _ _ hz0
+    have hev := eval_first_episode_only_local env L r k (as' ++ [a]) (by
+      intro t ht
+      rw [hfe, trace_snoc, List.mem_append, List.mem_singleton] at ht
+      rcases ht with ht | rfl
+      · exact Or.inl (hz0 t ht)
+      · exact Or.inr hd)
+    rw [hfe] at hev
+    have hsteps : (run env L r k (as' ++ [a])).steps = (L : R) := by
+      rw [(steps_counter (R := R) env r hL k (as' ++ [a])).1, hc, hl', hN]
+    rw [hee, hcat]
+    refine ⟨hev.2.1, fun h => absurd hdiv h, fun _ => ⟨?_, ?_, hd, htr⟩⟩
+    · rw [hev.2.2.1, if_pos]
+      rw [trace_snoc, List.any_append]
+      simp [hd]
+    · rw [hev.2.2.2, trace_getLast]
+      exact hsteps
+  · -- the limit is never reached inside the unroll
+    have hlt : L / r * r < L := by
+      have : L / r * r ≠ L := fun h => hdiv ⟨L / r, by rw [Nat.mul_comm]; exact h.symm⟩
+      omega
+    have hz := nonterminating_below_limit (R := R) env hL hr hnt k acts (by rw [hlen']; exact hlt)
+    have hz0 : ∀ t ∈ trace env L r k acts, t.done = 0 := fun t ht => (hz t ht).1
+    have hfe := firstEp_all_zero _ hz0
+    have hev := eval_first_episode_only_local env L r k acts (by
+      intro t ht; rw [hfe] at ht; exact Or.inl (hz0 t ht))
+    rw [hfe] at hev
+    rw [hee]
+    refine ⟨hev.2.1, fun _ => ⟨?_, ?_, hlt, hz⟩, fun h => absurd h hdiv⟩
+    · rw [hev.2.2.1, if_neg]
+      simp only [List.any_eq_true, decide_eq_true_eq, not_exists, not_and, not_not]
+      exact hz0
+    · rw [hev.2.2.2]
+      rcases List.eq_nil_or_concat acts with hnil | ⟨as', a, hcat⟩
+      · rw [hnil] at hlen' ⊢
+        simp only [List.length_nil] at hlen'
+        rw [← hlen']; simp [trace, traceFrom]
+      · rw [List.concat_eq_append] at hcat
+        rw [hcat, trace_getLast]
+        rw [hcat] at hz0 hlen'
+        simp only [Option.map_some, Option.getD_some]
+        rw [(steps_counter (R := R) env r hL k (as' ++ [a])).1,
+          count_eq_length env L r k _ hz0, hlen']
+
+/-- for `r ∣ L` every member finishes its first episode inside the evaluator's unroll (0/1 closing
+flag): `active_episodes = 0` at the end, whatever the environment does -/
+theorem evaluator_completes_of_dvd (env : Env K P O X R A) {L r : Nat} (hL : 1 ≤ L) (hr : 1 ≤ r)
+    (hdiv : r ∣ L) (π : O → Ky → A) (split : Ky → Ky × Ky) (k : K) (key : Ky)
+    (hb : ∀ t ∈ firstEp (trace env L r k (evalActs env L r π split k key)),
+      t.done = 0 ∨ t.done = 1) :
+    (evalRun env L r π split k key).active = 0 := by
+  obtain ⟨he, hlen⟩ := evaluator_run_eq (R := R) env L r π split k key
+  rw [he, (eval_first_episode_only_local env L r k _ hb).2.2.1, if_pos]
+  by_contra hany
+  have hz0 : ∀ t ∈ trace env L r k (evalActs env L r π split k key), t.done = 0 := by
+    simpa only [List.any_eq_true, decide_eq_true_eq, not_exists, not_and, not_not] using hany
+  have hN : L / r * r = L := Nat.div_mul_cancel hdiv
+  rcases List.eq_nil_or_concat (evalActs env L r π split k key) with hnil | ⟨as', a, hcat⟩
+  · rw [hnil] at hlen; simp only [List.length_nil] at hlen; rw [← hlen] at hN; omega
+  · rw [List.concat_eq_append] at hcat
+    rw [hcat] at hz0 hlen
+    have hc := count_eq_length env L r k _ hz0
+    have hd : (run env L r k (as' ++ [a])).done = 1 :=
+      (time_limit (R := R) env hL hr k as' a).2.2.1 (by rw [hc, hlen, hN])
+    have h0 : (run env L r k (as' ++ [a])).done = 0 := by
+      apply hz0; rw [trace_snoc]; simp
+    rw [h0] at hd
+    exact zero_ne_one hd
+
+end evaluator
+
+/-! ### non-vacuity of the deepening theorems -/
+
+/-- `generate_unroll` on the scripted environment (`L = 5, r = 2`, time-limit cut on the third
+step): the recorded `next_observation` of the cut step is the reset observation, `discount = 0`,
+`truncation = 1`, and the next transition starts from it -/
+example :
+    let u := unroll (R := Int) (Ky := Unit) arView (arStep scripted 5 2) (fun _ _ => 0)
+      (fun _ => ((), ())) 4 (run scripted 5 2 exScript []) ()
+    u.2.map (fun t => (t.observation, t.nextObservation, t.reward, t.discount, t.truncation))
+      = [([0, 1, 7], [2, 1, 7], 3, 1, 0), ([2, 1, 7], [4, 1, 7], 12, 1, 0),
+         ([4, 1, 7], [0, 1, 7], 48, 0, 1), ([0, 1, 7], [2, 1, 7], 64, 1, 0)] := by decide
+
+/-- the batched evaluator on a 2-member batch with different scripts, computed both ways -/
+example :
+    bEvalRun (R := Int) (Ky := Unit) scripted 5 2 (fun obs k => obs.map ((fun _ _ => 0) · k))
+        (fun _ => ((), ())) [exScript, { exScript with dones := [0, 1], c := 2 }] ()
+      = BEvSt.stack ([exScript, { exScript with dones := [0, 1], c := 2 }].map fun k =>
+          evalRun (R := Int) (Ky := Unit) scripted 5 2 (fun _ _ => 0) (fun _ => ((), ())) k ()) := rfl
+
+/-- hypotheses of `evaluator_nonterminating` are satisfiable, both cases occur:
+`L = 5, r = 2` (still active, scored on 4 steps) and `L = 6, r = 2` (closed by the limit) -/
+def foreverEnv : BEnv Unit Nat Unit Int Int :=
+  ⟨fun _ => ⟨0, [0], 0, 0, [0], ()⟩, fun s a => ⟨s.ps + 1, [(s.ps : Int) + 1], a, 0, [a], ()⟩⟩
+
+example : (∀ s a, (foreverEnv.step s a).done = 0) ∧
+    (let e := evalRun (R := Int) (Ky := Unit) foreverEnv 5 2 (fun _ _ => 1) (fun _ => ((), ())) () ()
+     (e.active, e.episodeSteps, e.emReward, e.ar.truncation) = (1, 4, 4, 0)) ∧
+    (let e := evalRun (R := Int) (Ky := Unit) foreverEnv 6 2 (fun _ _ => 1) (fun _ => ((), ())) () ()
+     (e.active, e.episodeSteps, e.emReward, e.ar.truncation) = (0, 6, 6, 1)) ∧
+    (let e := evalRun (R := Int) (Ky := Unit) foreverEnv 2 3 (fun _ _ => 1) (fun _ => ((), ())) () ()
+     (e.active, e.episodeSteps, e.emReward) = (1, 0, 0)) :=
+  ⟨fun _ _ => rfl, by decide, by decide, by decide⟩
+
+end Brax.C15
+
+namespace Brax.C15
+variable {K P O X R A : Type}
+
+/-- the extra field `steps` (`extra_fields=('steps',)`: the view's extra slot reads `info['steps']`)
+is the counter of the state **after** the step — 2, 4, 6 (the cut), then 2 again -/
+example :
+    let v : View (ArSt (SPs Int) (List Int) (SInfo Int) Int) (List Int) Int :=
+      ⟨ArSt.obs, ArSt.reward, ArSt.done, ArSt.steps⟩
+    (unroll (Ky := Unit) v (arStep scripted 5 2) (fun _ _ => 0) (fun _ => ((), ())) 4
+      (run scripted 5 2 exScript []) ()).2.map (·.truncation) = [2, 4, 6, 2] := by decide
+
+/-- hypotheses of `batched_generate_unroll_eq_map` / `batched_eval_run_eq_map` hold for the scripted
+environment (`observation_size = 3`), and a 2-member training unroll with two *different* member
+policies computed both ways agrees (one member is cut by the time limit, the other terminates) -/
+example :
+    (∀ k : Script Int, ((scripted (R := Int)).reset k).obs.length = 3) ∧
+    (∀ s a, ((scripted (R := Int)).step s a).obs.length = 3) ∧
+    (let ks := [exScript, { exScript with dones := [0, 1], c := 2 }]
+     let πs : List (List Int → Unit → Int) := [fun _ _ => 0, fun o _ => o.getD 0 0]
+     bUnroll (R := Int) bArView (bArStep scripted 5 2) (polZip πs) (fun _ => ((), ())) 4
+        (bArReset scripted ks) ()
+      = (BArSt.stack (List.zipWith (fun π s =>
+            (unroll arView (arStep scripted 5 2) π (fun _ => ((), ())) 4 s ()).1) πs
+              (ks.map (arReset scripted))),
+         (List.range 4).map fun t => BTransition.stack (List.zipWith (fun π s =>
+            (unrollAt arView (arStep scripted 5 2) π (fun _ => ((), ())) t s ()).2) πs
+              (ks.map (arReset scripted))))) :=
+  ⟨fun _ => rfl, fun _ _ => rfl, rfl⟩
+
+/-- an environment whose flag is the action value: the hypothesis of
+`eval_first_episode_only_local` holds on the history `[0, 1, 2, 5]` (the first episode is closed by
+a flag 1) although the global 0/1 assumption fails; only the first two steps are accumulated -/
+def actEnv : BEnv Unit Nat Unit Int Int :=
+  ⟨fun _ => ⟨0, [0], 0, 0, [0], ()⟩, fun s a => ⟨s.ps + 1, [(s.ps : Int) + 1], 1, a, [a], ()⟩⟩
+
+example :
+    (∀ t ∈ firstEp (trace (R := Int) actEnv 10 1 () [0, 1, 2, 5]), t.done = 0 ∨ t.done = 1) ∧
+    ¬ (∀ s a, (actEnv.step s a).done = 0 ∨ (actEnv.step s a).done = 1) ∧
+    (let e := evRun (R := Int) actEnv 10 1 () [0, 1, 2, 5]
+     (e.emReward, e.active, e.episodeSteps) = (2, 0, 2)) := by
+  refine ⟨by decide, ?_, by decide⟩
+  intro h
+  have := h ⟨0, [0], 0, 0, [0], ()⟩ 2
+  simp [actEnv] at this
+
+end Brax.C15
